@@ -294,7 +294,7 @@ def case(ctx):
             if O.is_polygonal(c) and not O.polygon_is_simple(c):
                 case.count("variant:%s-invalid" % name)
                 return
-        ok, _ = O.same_region(base_reg, reg, 1e-4 * max(1.0, L) if not exact else 0.0)
+        ok, _ = O.same_region(base_reg, reg, (1e-8 if name.startswith("vertex-moved-") else 1e-4 * max(1.0, L)) if not exact else 0.0)
         if ok:
             case.count("variant:%s-not-different" % name)
             return
@@ -317,6 +317,11 @@ def case(ctx):
                 add_equal("as-" + other, lambda s2=s2: G.build(s2))
     amount = L * rng.choice([1e-3, 1e-2, 0.1])
     add_unequal("vertex-moved", lambda: perturb_vertex(spec, rng, amount))
+    if G.spec_num(spec) != "int":
+        # far below the drawing's size but above the library's resolution (1e-9 point equality,
+        # 1e-6 point-on-curve): still another region
+        tiny = rng.choice([1e-5, 1e-7])
+        add_unequal("vertex-moved-%g" % tiny, lambda: perturb_vertex(spec, rng, tiny))
     add_unequal("translated", lambda: translate_spec(spec, round(L) + 1 if G.spec_num(spec) == "int" else L * rng.choice([1e-3, 0.5, 3.0]), 0))
     if spec["t"] in ("poly", "ctrl", "circle"):
         add_unequal("flipped", lambda: flip(spec))
